@@ -12,7 +12,8 @@ def c07(ctx: Ctx):
     ctx.assumptions = [
         "TLC; spec/RequestCheck.tla as the contract (security OR-of-ANDs with operation-over-document precedence, effective parameters, exclusion options, multi-error bijection)",
         "harness realiser harness/c07.go (documents built per case and loaded through the real loader; scripted AuthenticationFunc; errors projected to parts by type: SecurityRequirementsError / RequestError.Parameter / RequestError.RequestBody)",
-        "the accept set is given as a sequence in the case (TLC set -> JSON array); an authentication callback is always configured (the statement speaks of the callback's outcomes)",
+        "the accept set is given as a sequence in the case (TLC set -> JSON array); an authentication callback is configured except in the no-callback focus (Options.AuthenticationFunc nil / Options nil), where no scheme can be accepted (accepts = {}) and nothing is called",
+        "histories: an alias path item / an edit installs parts of a second document loaded through the real loader (openapi3.PathItem{Post: same *Operation, Parameters: loaded})",
     ]
     cases = os.path.join(ctx.scratch, "cases.ndjson")
     if ctx.replay:
@@ -20,6 +21,14 @@ def c07(ctx: Ctx):
     else:
         ctx.tlc("MC_C07", "MC_C07.cfg", label="D security automaton: verdict = SecOK, calls = ExpectedCalls")
         ctx.tlc("MC_C07", "MC_C07_abort.cfg", expect_violation=True, label="D variant 'undeclared scheme aborts the list' breaks the contract")
+        ctx.tlc("MC_C07O", "MC_C07O_asbuilt.cfg", label="D orchestration: security, path-level minus overridden, operation-level, body; fail-first / collect = FailingParts")
+        ctx.tlc("MC_C07H", "MC_C07H_stateless.cfg", label="D history: parameters checked = Effective(route and document at the time of the call), <=3 validate/edit steps")
+        if ctx.tier == "thorough":   # the refuted designs (model drift guards): each must still have its counterexample
+            for v in ("exclQueryOpOnly", "bodyPresenceFirst", "multiEarlyReturn", "overrideByName"):
+                ctx.tlc("MC_C07O", "MC_C07O_%s.cfg" % v, expect_violation=True, label="D orchestration variant '%s' breaks the contract" % v)
+            ctx.tlc("MC_C07H", "MC_C07H_memoRoute_noedit.cfg", label="D history variant 'memoRoute' is indistinguishable while the document is never edited")
+            for design, by in (("memoOp", "an alias path item sharing the Operation (no edit)"), ("memoPathItem", "a sibling operation (no edit)"), ("memoRoute", "an edit")):
+                ctx.tlc("MC_C07H", "MC_C07H_%s.cfg" % design, expect_violation=True, label="D history variant '%s' is refuted by %s" % (design, by))
         ctx.tlc("Gen_C07", "Gen_C07_%s.cfg" % ctx.tier, label="F generate cases")
         n = ctx.unquote(ctx.spec("cases.ndjson"), cases)
         log("[gen] %d cases" % n)
@@ -34,8 +43,12 @@ def c07(ctx: Ctx):
         ctx.nontrivial.add(casehash(o["c"]))
         if rng.random() < 6.0 / 30000:
             ctx.samples.append(dict(c=o["c"], verdict=o.get("verdict"), parts=o.get("parts"), calls=o.get("calls")))
-    ctx.rule = ("product of spec/Gen_C07.tla: security focus (9 operation-level x 3 document-level requirement lists x 8 callback outcome sets x body x "
+    ctx.rule = ("product of spec/Gen_C07.tla: security focus (operation-level x document-level requirement lists x callback outcome sets x body x "
                 "{no params, one failing query param} x multi-error x callback-reads-body) + parameter focus (every assignment of path-level kind, "
-                "operation-level kind and request text to <=2 of 3 (in,name) keys x security x body x MultiError/ExcludeRequestBody/ExcludeRequestQueryParams); "
-                "every case distinct and judged")
-    ctx.validate("Trace_C07", "Trace_C07.cfg", logp, chunk_lines=2500)
+                "operation-level kind and request text to <=2 of 3 (in,name) keys x security x body x MultiError/ExcludeRequestBody/ExcludeRequestQueryParams) "
+                "+ requiredness focus + location focus (path/cookie/header of one name) + $ref focus + scope focus (outcome per scheme+scopes) "
+                "+ body focus (declaration none/optional/required x carried none/empty/pass/fail/otherct/badjson x ExcludeRequestBody x security x unsized) "
+                "+ unmentioned options / nil Options + no-callback focus + histories (second validation through an alias path item sharing the Operation value, a sibling "
+                "operation, an in-place edit of parameters / security / requestBody, then the first route again; thorough: chains of two kinds); "
+                "every case distinct, every call of every history judged")
+    ctx.validate("Trace_C07", "Trace_C07.cfg", logp, chunk_lines=2400 if ctx.tier == "quick" else 2500)
